@@ -222,11 +222,11 @@ static KV genCase()
             c.putI("r" + std::to_string(k) + "_poison", 1);
             continue;
         }
-        if (k > 0 && !pattern && rint(0, 2) == 0) {
+        if (k > 0 && !pattern && rint(0, s.extrapolation == 3 ? 1 : 2) == 0) {
             // only options that solve() reads itself change (one to three of them), and setup() is NOT called again:
             // the next solve must behave like a fresh object that was given the new values before its setup()
             const int nchg = rint(1, 3);
-            if (s.extrapolation == 3 && rint(0, 2) == 0) {
+            if (s.extrapolation == 3 && rint(0, 2) != 0) {
                 // another extrapolation mode on a hierarchy that was (most likely) set up in COMBINED mode; runCase calls
                 // setup() anyway if it was not
                 s.extrapolation = rint(0, 2);
@@ -274,8 +274,8 @@ static KV genCase()
             s.fmg_its       = rint(0, 2);
             s.fmg_cycle     = rint(0, 2);
             s.cycle         = rint(0, 2);
-            s.pre           = rint(1, 2);
-            s.post          = rint(1, 2);
+            s.pre           = rint(0, 2); // 0 steps on one side is accepted (no smoothing at all: C10/C20)
+            s.post          = rint(s.pre == 0 ? 1 : 0, 2);
             s.max_levels    = rpick({-1, -1, 2, 3});
             s.max_its       = rpick({150, 150, 150, 3, 7, 0});
             s.norm          = rint(0, 2);
